@@ -355,8 +355,8 @@ def verify(c: Contract, call: Callable[[Dict[str, Any], Dict[str, Any]], Any],
                 if en in raise_conds:
                     ctx.check(f"{owner}.raises[{en}].only-when", raise_conds[en],
                               f"{en} is raised only when: {c.raises[en]}")
-                    if post_env is not None and f"on_{en}" in c.spec:
-                        pe = dict(env, **post_env(args, ns))
+                    if f"on_{en}" in c.spec:
+                        pe = dict(env, **(post_env(args, ns) if post_env is not None else {}))
                         ctx.check(f"{owner}.raises[{en}].state", eval_expr(c.spec[f"on_{en}"], pe),
                                   f"state when {en} is raised: {c.spec[f'on_{en}']}")
                 else:
